@@ -344,3 +344,27 @@ pub fn has_zero_width_seq(t: &DTy) -> bool {
         _ => false,
     }
 }
+
+/// "header-only" values: a variant index / length prefix / option tag followed by NOTHING (no fields, or fields of
+/// zero width). If the one write they make is refused and the refusal is dropped, nothing later fails either.
+pub fn header_only_vals() -> Vec<(DTy, DVal)> {
+    let mut cases: Vec<(DTy, DVal)> = Vec::new();
+    for idx in [0u32, 1, 127, 128, 300, 20000] {
+        let pad = |vt: DTy| DTy::EnumAt(idx, Box::new(vt));
+        cases.push((pad(DTy::Unit), DVal::UVar(idx)));
+        cases.push((pad(DTy::Tuple(vec![])), DVal::TVar(idx, vec![])));
+        cases.push((pad(DTy::Struct(vec![])), DVal::SVar(idx, vec![])));
+        cases.push((pad(DTy::NStruct(Box::new(DTy::Unit))), DVal::NVar(idx, Box::new(DVal::Unit))));
+        cases.push((pad(DTy::Tuple(vec![DTy::Unit, DTy::UStruct])), DVal::TVar(idx, vec![DVal::Unit, DVal::UStruct])));
+        cases.push((pad(DTy::Struct(vec![DTy::Tuple(vec![])])), DVal::SVar(idx, vec![DVal::Tuple(vec![])])));
+    }
+    for n in [0usize, 1, 2, 127, 128, 300] {
+        cases.push((DTy::Seq(Box::new(DTy::Unit)), DVal::Seq(vec![DVal::Unit; n])));
+        cases.push((DTy::Map(Box::new(DTy::Unit), Box::new(DTy::UStruct)), DVal::Map((0..n).flat_map(|_| [DVal::Unit, DVal::UStruct]).collect())));
+    }
+    cases.push((DTy::Str, DVal::Str(String::new())));
+    cases.push((DTy::Bytes, DVal::Bytes(vec![])));
+    cases.push((DTy::Option(Box::new(DTy::Unit)), DVal::Some(Box::new(DVal::Unit))));
+    cases.push((DTy::Tuple(vec![DTy::U(8), DTy::Option(Box::new(DTy::Tuple(vec![])))]), DVal::Tuple(vec![DVal::U(8, 9), DVal::Some(Box::new(DVal::Tuple(vec![])))])));
+    cases
+}
